@@ -501,6 +501,68 @@ pub fn run<D: Dec>(rep: &mut Report) {
         rep.count(&format!("{}_four_byte_streams", set_name(set)), streams4);
     }
 
+    // ---------------------------------------------------------------- (b2) a complete sequence two or three times in a row
+    //      (the same garbage again and again, a key bouncing), then every one- and two-byte sequence: every (prefix, byte)
+    //      sequence A, the stream A A (and A A A) followed by every (prefix', byte') – each byte judged as above
+    {
+        let prefixes: Vec<Vec<u8>> = if set == 1 { vec![vec![], vec![0xE0], vec![0xE1]] } else { vec![vec![], vec![0xE0], vec![0xE1], vec![0xF0]] };
+        let uni3 = uni.clone();
+        // on ONE thread: state the decoders may keep outside themselves (a static) is then touched by this stream only
+        let threads = 1usize;
+        let shards = par_map(threads, move |t| {
+            let mut out = Out::default();
+            let mut ft: FreshTable<D> = FreshTable::new();
+            let fresh = D::fresh();
+            let mut n = 0usize;
+            for p in prefixes.iter() {
+                for b in 0..=255u8 {
+                    n += 1;
+                    if n % threads != t {
+                        continue;
+                    }
+                    let mut a = p.clone();
+                    a.push(b);
+                    for k in [2usize, 3] {
+                        let mut w: Walker<D> = Walker::new();
+                        let mut ok = true;
+                        'outer: for _ in 0..k {
+                            for x in a.iter() {
+                                if !w.step(*x, &mut ft, &fresh, &uni3, true, &mut out) {
+                                    ok = false;
+                                    break 'outer;
+                                }
+                            }
+                        }
+                        if !ok {
+                            continue;
+                        }
+                        for p2 in prefixes.iter() {
+                            let mut w1 = w.fork();
+                            if !p2.iter().all(|x| w1.step(*x, &mut ft, &fresh, &uni3, true, &mut out)) {
+                                continue;
+                            }
+                            for b2 in 0..=255u8 {
+                                let mut w2 = w1.fork();
+                                w2.step(b2, &mut ft, &fresh, &uni3, true, &mut out);
+                                out.streams += 1;
+                            }
+                        }
+                    }
+                    if out.violations.len() > 3000 {
+                        out.violations.truncate(3000);
+                    }
+                }
+            }
+            out
+        });
+        let mut n = 0u64;
+        for s in shards {
+            n += s.streams;
+            merge(&mut out, s);
+        }
+        rep.count(&format!("{}_streams_of_a_sequence_repeated_then_every_short_sequence", set_name(set)), n);
+    }
+
     // ---------------------------------------------------------------- (c) long hostile histories
     let (n_hist, hist_len) = if rep.thorough() { (200_000usize, 1000usize) } else { (4_000, 250) };
     let seed = rep.seed;
